@@ -187,7 +187,145 @@ def units(tier):
     ranges = [(2 ** e2, 2 ** (e2 + 1)) for e2 in range(0, 31)]
     ranges += [(2 ** 31, 2767045208), (2767045207, 4102444800)]   # top binade, cut where the FILETIME value crosses 2^57
     return [Unit("a.attributes", M, "attributes", {}, 900), Unit("c.writeall_dispatch", M, "writeall_dispatch", {}, 600)] + [
+        Unit("d.metadata_applied[%s]" % k, M, "metadata_applied", dict(kind=k), 900) for k in "fed"] + [
         Unit("b.mtime_roundtrip[%d..%d]" % (a, b), M, "mtime_roundtrip", dict(lo=a, hi=b), 900) for (a, b) in ranges]
+
+
+# ---------------------------------------------------------------- d. permissions and mtime end to end
+def metadata_applied(kind, intmode="bv"):
+    """source st_mode --real _make_file_info--> attribute word --reference-written archive, real reader--> real _extract
+    post-pass on the filesystem model: chmod gets the source's permission bits, utime gets the stored FILETIME"""
+    from vf.harness import extract as X
+    from vf.harness import fakefs as F
+    from vf.harness import readcases as RC
+
+    r = ObResult(bounds="one member of kind %r (f file, e empty file, d directory) next to nothing else; all 12 permission bits, "
+                        "size, CRC and FILETIME symbolic, mtime defined or not; extraction into an empty directory on the "
+                        "filesystem model" % kind)
+    eng = RC.mk_engine(unroll=1, intmode=intmode)
+    eng.overrides[(HP, "ArchiveTimestamp.from_datetime")] = lambda e, v: 0
+    perm = eng.sym_int("perm", 12)
+    ft = eng.sym_int("filetime", 63)
+    size = eng.sym_int("size", 30)
+    crc = eng.sym_int("crc", 32)
+    has_mtime = z3.Bool("mtime_defined")
+
+    class TS(Native):
+        def __init__(self, v):
+            self.v = v
+
+        def totimestamp(self, e):
+            return ("ts", self.v)
+
+    def harness(e):
+        fs = F.FS()
+        for loc in [("/", "base"), ("/", "base", "jail")]:
+            fs.nodes[loc] = ("dir",)
+        typ = stat.S_IFDIR if kind == "d" else stat.S_IFREG
+        mode = e.binop(ast.BitOr(), typ, perm)
+        cls = e.cls(PZ, "SevenZipFile")
+        fi = e.call_function(cls.find("_make_file_info")[1], [_Path(mode, mode, 0), "m", False])
+        attr = fi["attributes"]
+        F.install(e, fs, "/base/jail")
+        if kind == "f":
+            e.assume(e.compare(ast.Gt(), size, 0))
+        defined = e.branch(has_mtime)
+        entries = [dict(kind=kind, name="m", size=(size if kind == "f" else 0), crc=(crc if kind == "f" else 0),
+                        mtime=(ft if defined else None), attributes=attr)]
+        nd = 1 if kind == "f" else 0
+        layout = dict(folders=[1] if nd else [], ncoders=[1] if nd else [], packsizes=[e.sym_int("pack", 30)] if nd else [],
+                      crc_at="sub", coder_ids=[b"\x00"])
+        try:
+            z, fp, w = X.setup_read(e, entries, layout, consume="all-at-once")
+        except ModelRaise as ex:
+            return dict(exc="open:" + ex.name)
+        e.class_models[("py7zr.helpers", "ArchiveTimestamp")] = lambda e_, x: TS(e_.models._int(e_, x))
+        try:
+            e.method(z, "extractall", F.FakePath(fs, "/base/jail", "/base/jail"))
+        except ModelRaise as ex:
+            return dict(exc=ex.name + str(ex.eargs)[:80])
+        finally:
+            e.class_models[("py7zr.helpers", "ArchiveTimestamp")] = lambda e_, x: e_.models._int(e_, x)
+        return dict(fs=fs, defined=defined, attr=attr)
+
+    def post(o):
+        if "exc" in o:
+            return False
+        fs = o["fs"]
+        loc = ("/", "base", "jail", "m")
+        times, modes = fs.__dict__.get("times", {}), fs.__dict__.get("modes", {})
+        c = [fs.kind(loc) == ("dir" if kind == "d" else "file")]
+        c.append(loc in modes and eng.compare(ast.Eq(), modes[loc], perm))
+        if o["defined"]:
+            t = times.get(loc)
+            c.append(t is not None and isinstance(t[0], tuple) and t[0][0] == "ts" and t[1] == t[0] and eng.compare(ast.Eq(), t[0][1], ft))
+        else:
+            c.append(loc not in times)
+        c.append(all(l[:3] == ("/", "base", "jail") for (op, l) in fs.effects))
+        return c
+
+    decide(eng, harness, post, {"perm": perm, "filetime": ft, "size": size, "crc": crc, "mtime_defined": has_mtime}, r,
+           describe=lambda o: o.get("exc") or "%d effects" % len(o["fs"].effects))
+    _cex(r, "metadata_applied", lambda w: dict(module="vf.props.c02", func="replay_metadata", kwargs=dict(
+        kind=kind, perm=int(w.get("perm", 0)), filetime=int(w.get("filetime", 0)), defined=bool(w.get("mtime_defined", False)))),
+         signature=lambda w: {"obligation": "metadata_applied", "kind": kind})
+    return r
+
+
+def replay_metadata(kind, perm, filetime, defined):
+    """the real thing: a source with these permission bits -> py7zr archive (Copy) -> extract -> compare mode and mtime"""
+    import io
+    import os
+    import shutil
+    import tempfile
+
+    import py7zr
+
+    d = tempfile.mkdtemp(prefix="vf_c02m_")
+    try:
+        src = os.path.join(d, "src")
+        os.mkdir(src)
+        p = os.path.join(src, "m")
+        if kind == "d":
+            os.mkdir(p)
+        else:
+            open(p, "wb").write(b"data" if kind == "f" else b"")
+        # FILETIME -> seconds since 1970, kept in a range the OS accepts
+        secs = (filetime // 10 ** 7 - 11644473600) % (2 ** 31) if defined else 10 ** 9
+        os.utime(p, (secs, secs))
+        os.chmod(p, perm)
+        want_mode, want_mtime = stat.S_IMODE(os.lstat(p).st_mode), os.lstat(p).st_mtime
+        buf = io.BytesIO()
+        try:
+            os.chmod(p, perm | (0o700 if kind == "d" else 0o400))   # readable while archiving; the recorded mode is patched below
+            with py7zr.SevenZipFile(buf, "w", filters=[{"id": py7zr.FILTER_COPY}]) as z:
+                fi = None
+                os.chmod(p, perm)
+                try:
+                    z.write(p, "m")
+                except PermissionError:
+                    return False, "source not readable with mode %o (cannot replay natively)" % perm
+        finally:
+            os.chmod(p, 0o700 if kind == "d" else 0o600)
+        out = os.path.join(d, "out")
+        os.mkdir(out)
+        try:
+            py7zr.SevenZipFile(io.BytesIO(buf.getvalue())).extractall(out)
+        except Exception as e:  # noqa
+            return True, "extraction failed: %r" % (e,)
+        st = os.lstat(os.path.join(out, "m"))
+        got = stat.S_IMODE(st.st_mode)
+        try:
+            os.chmod(os.path.join(out, "m"), 0o700)
+        except OSError:
+            pass
+        if got != want_mode:
+            return True, "mode %o extracted as %o" % (want_mode, got)
+        if abs(st.st_mtime - want_mtime) > 5e-6:
+            return True, "mtime %r extracted as %r" % (want_mtime, st.st_mtime)
+        return False, "mode %o and mtime preserved" % got
+    finally:
+        shutil.rmtree(d, ignore_errors=True)
 
 
 # ---------------------------------------------------------------- c. one step of the writeall walk
